@@ -262,6 +262,10 @@ class ProcessStartCommand(ProcessCommand):
         """
         # check the process state on the targeted Supvisors instance
         instance_info = self.get_instance_info()
+        if instance_info is None:
+            # the process has been removed from the Supvisors instance in the meantime (group removed
+            # or numprocs decreased), so the job is pointless and must be removed from the sequencer
+            return ProcessStates.UNKNOWN, ProcessRequestResult.SUCCESS, 0
         process_state = instance_info['state']
         process_state_date = instance_info['event_time']
         # if the evaluation is done in the RUNNING state, the EXITED state must be expected
@@ -363,6 +367,10 @@ class ProcessStopCommand(ProcessCommand):
         """
         # check the process state on the targeted Supvisors instance
         instance_info = self.get_instance_info()
+        if instance_info is None:
+            # the process has been removed from the Supvisors instance in the meantime (group removed
+            # or numprocs decreased), so the job is pointless and must be removed from the sequencer
+            return ProcessStates.UNKNOWN, ProcessRequestResult.SUCCESS, 0
         process_state = instance_info['state']
         process_state_time = instance_info['event_time']
         if process_state == ProcessStates.STOPPING:
